@@ -62,7 +62,7 @@ def feasible_returns(outs):
 def run(chk):
     fdbg, frel = F.load("dbg"), F.load("rel")
     envs = {"dbg": Env(fdbg), "rel": Env(frel)}
-    nmax = 8
+    nmax = 8 if chk.tier == "quick" else 10
     chk.trust("rustc MIR construction for both configurations (-Cdebug-assertions/-Coverflow-checks on and off); std summaries (analysis/stdmodel.py)")
     chk.assume("StaticLut operands of different N are rejected by the type checker (compile-fail witness W3, thorough tier of C10)")
     if frel.raw["debug_assertions"] or frel.raw["overflow_checks"] or not fdbg.raw["debug_assertions"]:
